@@ -326,6 +326,8 @@ func runC08(e *Engine, r *Report) {
 	ruleReadyToStream(e, r)
 	ruleOpenSetsOnDiskIndex(e, r)
 	ruleSnapshotJobExclusion(e, r)
+	ruleApplyIndexAtomic(e, r)
+	ruleSessionBytesWritten(e, r)
 	// a snapshot labelled N holds exactly the entries up to N: the applied index moves in the
 	// same critical section as the user update (C02: setApplied on every exit; C11: lock held at the user call)
 	borrow(e, r, "C02", "MPT-setapplied")
